@@ -194,7 +194,7 @@ PROPS["C09"] = {
     "level": "model_checking",
     "kani": [H("c09_node_new_serialized_layout", "Node::new_serialized emits NodeMeta | keys | offsets and matches serialized_size_with_keys",
                ["Node::new_serialized", "Node::serialized_size_with_keys"], "2 keys of 2 bytes, 3 offsets, all values", covers=1, timeout=600)],
-    "mir": [ob("partition_agree", "ob_bptree", "partition_agree", kwargs={"N": 6}, thorough_kwargs={"N": 8})],
+    "mir": [ob("partition_agree", "ob_bptree", "partition_agree", kwargs={"N": 6}, thorough_kwargs={"N": 7})],
     "assumptions": COMMON_K + COMMON_M + ["outside: leaf packing (serialize_bptree), in-leaf search and left/right expansion (read_headers/go_right), end-to-end build-then-query, SHA-256"],
 }
 
@@ -286,3 +286,22 @@ PROPS["C10"]["kani"] += _AHASH
 PROPS["C09"]["mir"].append(ob("leaf_packing", "ob_tree", "leaf_packing", kwargs={"N": 3}))  # N=4: 16 min, solver unknown (nonlinear)
 PROPS["C14"]["mir"].append(ob("close_active_order_c14", "ob_storage", "close_active_order"))
 PROPS["C15"]["mir"].append(ob("validate_rejects_short_index_c15", "ob_bptree", "validate_rejects_short_index"))
+PROPS["C03"]["mir"] += [ob("records_fold_step", "ob_load", "records_fold_step", kwargs={"L": 3}, thorough_kwargs={"L": 5}),
+                        ob("records_reverse", "ob_load", "records_reverse", kwargs={"L": 4}, thorough_kwargs={"L": 6})]
+PROPS["C04"]["mir"] += [ob("records_fold_step_c04", "ob_load", "records_fold_step", kwargs={"L": 3}, thorough_kwargs={"L": 5}),
+                        ob("records_reverse_c04", "ob_load", "records_reverse", kwargs={"L": 4}, thorough_kwargs={"L": 6})]
+PROPS["C02"]["mir"] += [ob("delete_in_closed_counts", "ob_delete", "delete_in_closed_counts", kwargs={"B": 3}, thorough_kwargs={"B": 5}),
+                        ob("delete_core_sum", "ob_delete", "delete_core_sum"),
+                        ob("delete_in_active_flag", "ob_delete", "delete_in_active_flag")]
+PROPS["C02"]["mir"].append(ob("write_guard_and_ack", "ob_write", "write_guard_and_ack"))
+PROPS["C11"]["mir"].append(ob("write_guard_and_ack_c11", "ob_write", "write_guard_and_ack"))
+PROPS["C16"]["mir"] += [ob("validate_blob_all_or_error", "ob_tools", "validate_blob_all_or_error", kwargs={"N": 3}, thorough_kwargs={"N": 5}),
+                        ob("reader_record_step", "ob_tools", "reader_record_step"),
+                        ob("reader_skip_once", "ob_tools", "reader_skip_once")]
+PROPS["C16"]["mir"].append(ob("recovery_copies_prefix", "ob_tools", "recovery_copies_prefix", kwargs={"N": 3}))
+PROPS["C06"]["mir"].append(ob("recovery_copies_prefix_c06", "ob_tools", "recovery_copies_prefix", kwargs={"N": 3}))
+PROPS["C10"]["mir"] += [ob("bloom_bits_agree", "ob_bloom", "bloom_bits_agree", kwargs={"H": 2}, thorough_kwargs={"H": 3}),
+                        ob("bloom_hasher_keys_c10", "ob_bloom", "bloom_hasher_keys")]
+PROPS["C17"]["mir"] += [ob("bloom_hasher_keys", "ob_bloom", "bloom_hasher_keys")]
+PROPS["C10"]["assumptions"] = PROPS["C10"]["assumptions"] + ["bloom_bits_agree: AtomicBitVec::len() = Bloom::bits_count (established by every constructor: new / from save / set_in_memory); hash values are arbitrary per hasher (the hash function itself: c17_hash_pinned_*)"]
+PROPS["C13"]["mir"] += [ob("worker_tick", "ob_worker", "worker_tick"), ob("worker_tick_deadline", "ob_worker", "worker_tick_deadline")]
